@@ -43,7 +43,34 @@ func oracleC02(cx *CheckCtx, runs []*CaseRun) []Finding {
 				if ops[i].Kind == OpRender && !nf[i] {
 					fset := token.NewFileSet()
 					if _, err := parser.ParseFile(fset, "", obs.Out, 0); err != nil {
-						fs = append(fs, Finding{Property: "C02", Shape: "emitted-invalid", What: "File.Render returned nil but the output does not parse: " + err.Error(), Case: cr.Case.Text(), Observed: trunc(obs.Out)})
+						shape, what := "emitted-invalid", "File.Render returned nil but the output does not parse: "+err.Error()
+						// whose doing?  If the unformatted source of the identically built file parses and
+						// Render's output is exactly what go/format makes of it, the formatter turned
+						// valid source into invalid source.
+						if twin == nil {
+							twin, _ = RunReal(cr.Case, &FormChooser{Fixed: 1, r: NewRng(1)}, true)
+						}
+						if i < len(twin) && twin[i].Class == "ok" {
+							if rawAst, perr := parser.ParseFile(token.NewFileSet(), "", twin[i].Out, 0); perr == nil {
+								if want, ferr := format.Source([]byte(twin[i].Out)); ferr == nil && string(want) == obs.Out {
+									shape = "formatter-output-invalid"
+									parenFuncType := false
+									ast.Inspect(rawAst, func(n ast.Node) bool {
+										if pe, ok := n.(*ast.ParenExpr); ok {
+											if _, ft := pe.X.(*ast.FuncType); ft {
+												parenFuncType = true
+											}
+										}
+										return true
+									})
+									if parenFuncType {
+										shape = "gofmt-drops-parens-around-func-type"
+									}
+									what = "the unformatted source parses, go/format accepts it, and go/format's output (which Render wrote) does not parse: " + err.Error()
+								}
+							}
+						}
+						fs = append(fs, Finding{Property: "C02", Shape: shape, What: what, Case: cr.Case.Text(), Observed: trunc(obs.Out)})
 						continue
 					}
 					if twin == nil {
@@ -59,7 +86,7 @@ func oracleC02(cx *CheckCtx, runs []*CaseRun) []Finding {
 					}
 				} else if ops[i].Kind != OpRender {
 					// fragment: must be accepted by the formatter again (parses as decls/stmts)
-					if _, err := format.Source([]byte(obs.Out)); err != nil {
+					if err := parsesAsFragment(obs.Out); err != nil {
 						fs = append(fs, Finding{Property: "C02", Shape: "fragment-invalid", What: "fragment render returned nil but output is not valid: " + err.Error(), Case: cr.Case.Text(), Observed: trunc(obs.Out)})
 					}
 				}
@@ -67,6 +94,22 @@ func oracleC02(cx *CheckCtx, runs []*CaseRun) []Finding {
 		}
 	}
 	return fs
+}
+
+// parsesAsFragment: the property's wording — "the bytes parse as Go declarations or statements".
+// (go/format.Source is NOT the judge: it only falls back to a statement list when the declaration
+// attempt fails with "expected declaration", so it rejects some of its own outputs, e.g. the
+// expression statement `func(r *T)`.)
+func parsesAsFragment(src string) error {
+	fset := token.NewFileSet()
+	_, err := parser.ParseFile(fset, "", "package p;"+src, 0)
+	if err == nil {
+		return nil
+	}
+	if _, err2 := parser.ParseFile(fset, "", "package p; func _() {"+src+"\n}", 0); err2 == nil {
+		return nil
+	}
+	return err
 }
 
 // fragment renders of every statement register as well
@@ -414,9 +457,22 @@ func oracleC15(cx *CheckCtx, runs []*CaseRun) []Finding {
 		}
 		for _, h := range headers {
 			first := strings.TrimSpace(strings.Split(strings.TrimSpace(h), "\n")[0])
-			if first != "" && strings.Contains(rawDoc, first) && !containsAny(pkgc, first) {
+			// the header is in the doc when one of the doc's comment lines IS the header's first
+			// line (a substring test would take the header " //" for part of every comment)
+			inDoc := false
+			if f.Doc != nil {
+				for _, cm := range f.Doc.List {
+					for _, l := range strings.Split(cm.Text, "\n") {
+						l = strings.TrimSpace(l)
+						if l == first || strings.TrimSpace(strings.TrimPrefix(l, "//")) == first || strings.TrimSpace(strings.TrimPrefix(l, "/*")) == first {
+							inDoc = true
+						}
+					}
+				}
+			}
+			if first != "" && inDoc && !containsAny(pkgc, first) {
 				shape := "header-in-package-doc"
-				if strings.Contains(h, "\f") && !strings.Contains(h, "\n") {
+				if strings.Contains(h, "\f") {
 					// go/printer counts a form feed inside a comment as a line break when it tracks
 					// positions, so the blank line jennifer writes after the header is dropped
 					shape = "header-with-formfeed-in-package-doc"
